@@ -240,6 +240,25 @@ func (ss *Package) buildObjectSchema(srcMsg protoreflect.MessageDescriptor, opts
 		}
 	}
 
+	// JSON member names, including those lifted out of flattened fields and
+	// exposed oneofs, must be unambiguous
+	seenNames := map[string]struct{}{}
+	for _, prop := range properties {
+		names := []string{prop.JSONName}
+		if flattened, ok := prop.Schema.(*ObjectField); ok && flattened.Flatten && flattened.Ref.To != nil {
+			names = names[:0]
+			for _, child := range flattened.Schema().ClientProperties() {
+				names = append(names, child.JSONName)
+			}
+		}
+		for _, name := range names {
+			if _, ok := seenNames[name]; ok {
+				return nil, fmt.Errorf("%s has more than one property named %q", srcMsg.FullName(), name)
+			}
+			seenNames[name] = struct{}{}
+		}
+	}
+
 	entity, err := findPSMOptions(srcMsg)
 	if err != nil {
 		return nil, fmt.Errorf("PSM options for %s: %w", srcMsg.FullName(), err)
